@@ -2,10 +2,11 @@
 C02 — threshold recovery returns the unique group signature for any qualifying set.
 
 Theorems about `Model/Tbls.lean` (byte-level model of `tbls.Recover` as repaired in /repo by
-4404707, 3dee076, f036cda on top of `share.RecoverCommit`), for an ARBITRARY field `F` of
-scalars, `F`-module `G` of signature points, codec, public polynomial `f` (threshold `t` =
-number of coefficients or more), hashed message point `hm = H(m)`, share count `n` with
-`1..n ≠ 0` in `F`, and ARBITRARY list of byte strings `sigs`.
+4404707, 3dee076, f036cda, 3cdfff8 on top of `share.RecoverCommit` as repaired by 2d8b40a), for an
+ARBITRARY field `F` of scalars, `F`-module `G` of signature points, codec, public polynomial `f`
+(ANY number of coefficients: a threshold `t` below it is refused by the code itself), hashed
+message point `hm = H(m)`, share count `n` with `1..n ≠ 0` in `F`, and ARBITRARY list of byte
+strings `sigs`.
 
 `members cd f hm n sigs` is the set of member numbers `i < n` for which SOME entry of the list
 carries index `i` and verifies (`= f(i+1) • H(m)` after decoding – any encoding, any position,
@@ -92,14 +93,35 @@ theorem recover_total (cd : Codec G) (f : List F) (hm : G) (t n : Nat) (ht : 0 <
     (hc : CharGt F n) (sigs : List Bytes) :
     ∀ s, recover cd f hm sigs t n ≠ .panic s := by
   intro s
-  rcases Tbls.recover_total cd f hm t n ht hc sigs with h | ⟨r, h⟩ <;> rw [h] <;> simp
+  rcases Tbls.recover_total cd f hm t n ht hc sigs with h | h | ⟨r, h⟩ <;> rw [h] <;> simp
 
-/-- the complete case distinction: the group signature if `≥ t` members qualify, else an error -/
+/-- **the guard of /repo 3cdfff8**: a threshold smaller than the number of coefficients of the
+public polynomial is refused, whatever the list holds (before the repair `t` shares of a polynomial
+with more than `t` coefficients were interpolated into bytes that are not the group signature). -/
+theorem recover_threshold_guard (cd : Codec G) (f : List F) (hm : G) (t n : Nat) (sigs : List Bytes)
+    (hlt : t < f.length) : recover cd f hm sigs t n = .errThreshold :=
+  recover_guard cd f hm t n sigs hlt
+
+/-- **the complete case distinction, NO hypothesis on the polynomial**: refused if `t` is below the
+number of coefficients; otherwise the group signature if `≥ t` members qualify, else "not enough
+shares". -/
 theorem recover_characterised (cd : Codec G) (f : List F) (hm : G) (t n : Nat) (ht : 0 < t)
-    (hf : f.length ≤ t) (hc : CharGt F n) (sigs : List Bytes) :
+    (hc : CharGt F n) (sigs : List Bytes) :
     recover cd f hm sigs t n
-      = if t ≤ (members cd f hm n sigs).card then .ok (blsSign cd (f.headD 0) hm) else .errFew :=
-  recover_eq cd f hm t n ht hf hc sigs
+      = if t < f.length then .errThreshold
+        else if t ≤ (members cd f hm n sigs).card then .ok (blsSign cd (f.headD 0) hm)
+        else .errFew :=
+  recover_eq_full cd f hm t n ht hc sigs
+
+/-- **whatever `Recover` returns is the group signature** – no hypothesis relating `t` to the
+polynomial: the guard supplies `len f ≤ t`. -/
+theorem recover_ok_is_group_signature (cd : Codec G) (f : List F) (hm : G) (t n : Nat) (ht : 0 < t)
+    (hc : CharGt F n) (sigs : List Bytes) (s : Bytes) (h : recover cd f hm sigs t n = .ok s) :
+    s = blsSign cd (f.headD 0) hm ∧ f.length ≤ t ∧ t ≤ (members cd f hm n sigs).card := by
+  rw [recover_characterised cd f hm t n ht hc sigs] at h
+  split_ifs at h with h1 h2
+  · injection h with h
+    exact ⟨h.symm, Nat.le_of_not_lt h1, h2⟩
 
 /-- a share produced by `tbls.Sign` for member `i < n` is valid (given a codec that round-trips
 and an index that fits the 2-byte prefix) -/
@@ -121,16 +143,18 @@ theorem signed_share_valid (cd : Codec G) (hcd : ∀ p, cd.decode (cd.encode p) 
 
 /-! ### the driver's instance: scalars `Zq r` (a field for prime `r`) -/
 
-theorem recover_unique_driver_scalars (q : Nat) [Fact q.Prime] {G : Type} [AddCommGroup G]
-    [Module (Zq q) G] [DecidableEq G] (cd : Codec G) (f : List (Zq q)) (hm : G) (t n : Nat)
-    (ht : 0 < t) (hf : f.length ≤ t) (hn : n < q) (sigs : List Bytes)
-    (hq : t ≤ (members cd f hm n sigs).card) :
-    recover cd f hm sigs t n = .ok (blsSign cd (f.headD 0) hm) := by
-  refine recover_unique cd f hm t n ht hf ?_ sigs hq
+theorem zqCharGt (q : Nat) [Fact q.Prime] (n : Nat) (hn : n < q) : CharGt (Zq q) n := by
   intro k hk hkn h0
   have h1 : Zq.toZMod ((k : Nat) : Zq q) = 0 := by rw [h0]; exact Zq.toZMod_zero
   rw [Zq.toZMod_natCast, ZMod.natCast_eq_zero_iff] at h1
   exact absurd (Nat.le_of_dvd hk h1) (by omega)
+
+theorem recover_unique_driver_scalars (q : Nat) [Fact q.Prime] {G : Type} [AddCommGroup G]
+    [Module (Zq q) G] [DecidableEq G] (cd : Codec G) (f : List (Zq q)) (hm : G) (t n : Nat)
+    (ht : 0 < t) (hf : f.length ≤ t) (hn : n < q) (sigs : List Bytes)
+    (hq : t ≤ (members cd f hm n sigs).card) :
+    recover cd f hm sigs t n = .ok (blsSign cd (f.headD 0) hm) :=
+  recover_unique cd f hm t n ht hf (zqCharGt q n hn) sigs hq
 
 /-! ### non-vacuity (dlog representation `G := Zq 11`, identity-like codec on one byte) -/
 
@@ -171,5 +195,42 @@ example : recover toyCodec [(4 : Zq 11), 3] 2
 
 example : validIdx toyCodec [(4 : Zq 11), 3] 2 3 (tblsSign toyCodec [(4 : Zq 11), 3] 2 1) = some 1 :=
   signed_share_valid toyCodec toyCodec_roundtrip _ _ 3 1 (by decide) (by decide)
+
+/-- `recover_subset_order_independent`: members {0,2} with junk and a re-encoding vs members {1,2}
+in another order -/
+example : recover toyCodec [(4 : Zq 11), 3] 2
+    [[0, 9, 200], [0, 2, 4], [0, 2, 4, 77], [5], [0, 0, 8], [0, 0, 3]] 2 3
+    = recover toyCodec [(4 : Zq 11), 3] 2 [[0, 2, 4, 1, 2, 3], [], [0, 1, 9], [0, 2, 4]] 2 3 :=
+  recover_subset_order_independent toyCodec [(4 : Zq 11), 3] 2 2 3 (by decide) (by decide)
+    (zqCharGt 11 3 (by decide)) _ _ (by decide) (by decide)
+
+/-- `members_perm_junk`: reversed, one entry repeated, junk replaced by other junk -/
+example : members toyCodec [(4 : Zq 11), 3] 2 3 [[0, 9, 200], [0, 2, 4], [5], [0, 0, 3]]
+    = members toyCodec [(4 : Zq 11), 3] 2 3 [[0, 0, 3], [0, 0, 3], [7, 7], [0, 2, 4]] := by decide
+
+/-- `reencoding_valid`: member 2's share with three trailing bytes -/
+example : validIdx toyCodec [(4 : Zq 11), 3] 2 3 [0, 2, 4, 9, 9, 9] = some 2 :=
+  reencoding_valid toyCodec [(4 : Zq 11), 3] 2 3 [0, 2, 4] [0, 2, 4, 9, 9, 9] 2 (by decide)
+    (by decide) (by decide)
+
+/-- `recover_total`: a list that used to panic (member 2 under two encodings, F1) -/
+example : recover toyCodec [(4 : Zq 11), 3] 2 [[0, 2, 4], [0, 2, 4, 77], [0, 0, 3]] 2 3
+    ≠ .panic .div0 :=
+  recover_total toyCodec [(4 : Zq 11), 3] 2 2 3 (by decide) (zqCharGt 11 3 (by decide)) _ .div0
+
+/-- `recover_threshold_guard`: the input of the repaired defect (coefficients 4,3,1, `t = 2`,
+shares of members 0 and 1): refused -/
+example : recover toyCodec [(4 : Zq 11), 3, 1] 2 [[0, 0, 5], [0, 1, 6]] 2 3 = .errThreshold :=
+  recover_threshold_guard toyCodec [(4 : Zq 11), 3, 1] 2 2 3 _ (by decide)
+
+example : recover toyCodec [(4 : Zq 11), 3, 1] 2 [[0, 0, 5], [0, 1, 6]] 2 3 = .errThreshold := by
+  decide
+
+/-- `recover_ok_is_group_signature` on the qualifying list -/
+example : blsSign toyCodec (4 : Zq 11) 2 = blsSign toyCodec (([(4 : Zq 11), 3]).headD 0) 2
+    ∧ ([(4 : Zq 11), 3]).length ≤ 2 ∧ 2 ≤ (members toyCodec [(4 : Zq 11), 3] 2 3
+        [[0, 9, 200], [0, 2, 4], [0, 2, 4, 77], [5], [0, 0, 8], [0, 0, 3]]).card :=
+  recover_ok_is_group_signature toyCodec [(4 : Zq 11), 3] 2 2 3 (by decide)
+    (zqCharGt 11 3 (by decide)) _ _ (by decide)
 
 end Dos.Props.C02
